@@ -1,6 +1,7 @@
 package main
 
 import (
+	"go/types"
 	"fmt"
 	"go/token"
 	"sort"
@@ -90,6 +91,13 @@ func propC15(c *Ctx) {
 				case *ssa.Call:
 					if calleeName(y) == "strings.ToLower" || calleeName(y) == "strings.ToUpper" || calleeName(y) == "strings.TrimSpace" {
 						walk(y)
+					} else {
+						okAll = false
+					}
+				case *ssa.Lookup:
+					// membership in a table whose keys are all constants (a whitelist written as a map)
+					if y.Index == x && constKeyedMap(y.X) {
+						n++
 					} else {
 						okAll = false
 					}
@@ -203,6 +211,65 @@ func propC15(c *Ctx) {
 			}
 		}
 		okAcc = errCell != nil
+		if errCell == nil {
+			// the accumulated error is a field of a local checker value (`ic.err`), written by the checker's methods
+			var accField *types.Var
+			allRet := true
+			for _, r := range returnsOf(cui) {
+				f, base := loadedField(returnValues(r)[0])
+				if f == nil || !isErrorType(f.Type()) {
+					allRet = false
+					continue
+				}
+				if _, isLocal := accessPath(base).Root.(*ssa.Alloc); !isLocal {
+					allRet = false
+				}
+				if accField != nil && accField != f {
+					allRet = false
+				}
+				accField = f
+			}
+			if accField != nil && allRet {
+				okAcc = true
+				nSt := 0
+				for _, fn := range w.RepoFuncs() {
+					allInstrs(fn, func(in ssa.Instruction) {
+						st, ok := in.(*ssa.Store)
+						if !ok {
+							return
+						}
+						f, _ := fieldOf(st.Addr)
+						if f != accField {
+							return
+						}
+						nSt++
+						if definitelyNonNilError(st.Val, nil) {
+							return
+						}
+						if pf := newPathFacts(fn).At(st); pf != nil && pf.knownNonNil(st.Val) {
+							return
+						}
+						// a possibly-nil value: only while the field is still nil
+						var fieldNil []Edge
+						allInstrs(fn, func(y ssa.Instruction) {
+							if u, ok := y.(*ssa.UnOp); ok {
+								if lf, _ := loadedField(u); lf == accField {
+									n, _ := nilTestEdges(u)
+									fieldNil = append(fieldNil, n...)
+								}
+							}
+						})
+						call, isCall := st.Val.(*ssa.Call)
+						if !(isCall && staticCallee(call) == safe && guardedByEdges(fn, st, fieldNil)) {
+							okAcc = false
+						}
+					})
+				}
+				if nSt == 0 {
+					okAcc = false
+				}
+			}
+		}
 		if errCell != nil {
 			for _, r := range returnsOf(cui) {
 				if u, ok := returnValues(r)[0].(*ssa.UnOp); !ok || u.X != ssa.Value(errCell) {
@@ -567,13 +634,60 @@ func checkSafeWhitelist(c *Ctx, safe *ssa.Function) {
 		}
 		// with every whitelist test false the predicate must say "not allowed" (true)
 		cuts := newCuts().addEdges(whitelistTrue(pred, pred.Params[0]))
+		cuts.closeBoolPhis(pred)
+		// value of a boolean expression under the assumption (every whitelist test false)
+		var evalAssumed func(v ssa.Value, d int) (val, known bool)
+		evalAssumed = func(v ssa.Value, d int) (bool, bool) {
+			if d > 6 {
+				return false, false
+			}
+			switch x := v.(type) {
+			case *ssa.Const:
+				if x.Value != nil {
+					return x.Value.String() == "true", true
+				}
+			case *ssa.UnOp:
+				if x.Op == token.NOT {
+					b, k := evalAssumed(x.X, d+1)
+					return !b, k
+				}
+			case *ssa.Call:
+				switch calleeName(x) {
+				case "unicode.IsLetter", "unicode.IsDigit":
+					if len(x.Call.Args) == 1 && (stripNum(x.Call.Args[0]) == ssa.Value(pred.Params[0]) || sameVar(stripNum(x.Call.Args[0]), pred.Params[0])) {
+						return false, true
+					}
+				}
+			case *ssa.BinOp:
+				if x.Op == token.EQL || x.Op == token.NEQ {
+					var k int64
+					var ok bool
+					isR := func(v ssa.Value) bool {
+						return stripNum(v) == ssa.Value(pred.Params[0]) || sameVar(stripNum(v), pred.Params[0])
+					}
+					switch {
+					case isR(x.X):
+						k, ok = constInt(x.Y)
+					case isR(x.Y):
+						k, ok = constInt(x.X)
+					}
+					if ok && (k == '_' || k == '-') {
+						return x.Op == token.NEQ, true
+					}
+				}
+			}
+			return false, false
+		}
 		accept, _ := reach(entrySite(pred), func(x ssa.Instruction) bool {
 			r, isR := x.(*ssa.Return)
 			if !isR {
 				return false
 			}
 			for _, lf := range phiLeaves(returnValues(r)[0]) {
-				if k, isC := lf.Val.(*ssa.Const); !isC || k.Value == nil || k.Value.String() != "true" {
+				if lf.Pred != nil && lf.Phi != nil && cuts.Edges[Edge{lf.Pred, lf.Phi.Block()}] {
+					continue // this way into the join is excluded by the assumption
+				}
+				if val, known := evalAssumed(lf.Val, 0); !known || !val {
 					return true // may report "allowed"
 				}
 			}
@@ -691,4 +805,64 @@ func wkPathsOfArg(v ssa.Value) []ssa.Value {
 	}
 	walk(v, 0)
 	return out
+}
+
+// constKeyedMap: the map value is a package-level or local map that is only
+// ever given constant keys (a whitelist).
+func constKeyedMap(m ssa.Value) bool {
+	m = stripConv(m)
+	var updates []*ssa.MapUpdate
+	collect := func(fns []*ssa.Function, isThis func(ssa.Value) bool) {
+		for _, fn := range fns {
+			withClosures(fn, func(f *ssa.Function) {
+				allInstrs(f, func(in ssa.Instruction) {
+					if mu, ok := in.(*ssa.MapUpdate); ok && isThis(stripConv(mu.Map)) {
+						updates = append(updates, mu)
+					}
+				})
+			})
+		}
+	}
+	switch x := m.(type) {
+	case *ssa.UnOp:
+		g, ok := x.X.(*ssa.Global)
+		if !ok || g.Pkg == nil {
+			return false
+		}
+		var fns []*ssa.Function
+		for _, mem := range g.Pkg.Members {
+			if fn, isFn := mem.(*ssa.Function); isFn {
+				fns = append(fns, fn)
+			}
+		}
+		// the map stored into the global at init, and any update through a load of the global
+		var lit ssa.Value
+		for _, fn := range fns {
+			allInstrs(fn, func(in ssa.Instruction) {
+				if st, ok := in.(*ssa.Store); ok && st.Addr == ssa.Value(g) {
+					lit = stripConv(st.Val)
+				}
+			})
+		}
+		collect(fns, func(v ssa.Value) bool {
+			if v == lit && lit != nil {
+				return true
+			}
+			u, ok := v.(*ssa.UnOp)
+			return ok && u.X == ssa.Value(g)
+		})
+	case *ssa.MakeMap:
+		collect([]*ssa.Function{x.Parent()}, func(v ssa.Value) bool { return v == ssa.Value(x) })
+	default:
+		return false
+	}
+	if len(updates) == 0 {
+		return false
+	}
+	for _, mu := range updates {
+		if _, ok := constString(mu.Key); !ok {
+			return false
+		}
+	}
+	return true
 }
